@@ -17,9 +17,17 @@ From Coq Require Import List NArith Bool.
 Import ListNotations.
 Local Open Scope N_scope.
 
-(* A message, projected to what this property is about: (destination domain, deposit nonce). *)
-Definition msg := (N * N)%type.
+(* A message, projected to what this property is about: (destination domain, (deposit nonce,
+   content)).  The code keys NOTHING by the nonce: the messages are grouped by destination and
+   appended, one per handled deposit; deposit nonces are counted per destination domain, so two
+   deposits of one range may carry the same nonce (for different destinations), the same
+   destination, the same resource, the same recipient, or be byte-identical (a retried block named
+   twice): each of them yields its own message.  [content] stands for everything else the message
+   holds (resource id, transfer type, payload, metadata), as a number: equal contents, equal number. *)
+Definition msg := (N * (N * N))%type.
 Definition dest (m : msg) : N := fst m.
+Definition nonce (m : msg) : N := fst (snd m).
+Definition content (m : msg) : N := snd (snd m).
 
 Inductive outcome := Ok (m : msg) | Err | Panic | Skip.
 
@@ -219,7 +227,12 @@ Definition healthy (p : path) (es : list revent) (k : N) : list msg :=
 Definition all_emitted (p : path) (es : list revent) (k : N) : list msg :=
   for_dest k (filter_map (emits p) (flat es)).
 
-Definition msg_eqb (a b : msg) : bool := N.eqb (fst a) (fst b) && N.eqb (snd a) (snd b).
+Definition msg_eqb (a b : msg) : bool :=
+  N.eqb (dest a) (dest b) && N.eqb (nonce a) (nonce b) && N.eqb (content a) (content b).
+
+(* number of occurrences *)
+Fixpoint count (m : msg) (l : list msg) : nat :=
+  match l with [] => O | x :: r => if msg_eqb m x then S (count m r) else count m r end.
 
 Fixpoint mem (m : msg) (l : list msg) : bool :=
   match l with [] => false | x :: r => msg_eqb m x || mem m r end.
@@ -232,14 +245,17 @@ Fixpoint subseq (l l' : list msg) : bool :=
   | a :: r, b :: r' => if msg_eqb a b then subseq r r' else subseq l r'
   end.
 
-(* The judge applied to what the implementation did: the process survived, and every message owed
-   to a well-formed deposit is in the group of its destination.  (Nothing is demanded about what
-   the malformed deposits themselves yield, nor - beyond the statement of the property - about
-   order; the order is covered by the theorems on the model and by `agree`.) *)
+(* The judge applied to what the implementation did: the process survived and processing the range
+   came to an end ([crashed] = the process died or did not terminate), and every message owed to a
+   well-formed deposit is in the group of its destination - EACH well-formed deposit its own: when
+   several well-formed deposits are owed equal messages (byte-identical deposits), the group holds
+   at least as many.  (Nothing is demanded about what the malformed deposits themselves yield, nor -
+   beyond the statement of the property - about order; the order is covered by the theorems on the
+   model and by `agree`.) *)
 Definition spec_ok (p : path) (es : list revent) (crashed : bool) (r : result) : bool :=
   negb crashed &&
-  forallb (fun m => match r with Done g => mem m (get (dest m) g) | Failed => false end)
-          (filter_map (owed p) (flat es)).
+  let o := filter_map (owed p) (flat es) in
+  forallb (fun m => match r with Done g => Nat.leb (count m o) (count m (get (dest m) g)) | Failed => false end) o.
 
 (* ---------------------------------------------------------------------------------------------
    What the event handlers hand on to the relayer.  HandleEvents pushes every group of the result
